@@ -389,6 +389,49 @@ pub fn run(env: &Env) -> PropRun {
         },
         &j,
     ));
+    // parameter VALUES: every unimplemented (marker | intermediate, final) pair with its first
+    // parameter swept over 0..=130 and the mode-number ranges real sequences use (DECSCL
+    // 61-65, DECSCUSR, 1000-1061, 2004, 2026 ...), from a state in which a soft or hard reset,
+    // a mode change or a cursor move would show. Judged without the probe battery unless
+    // dump() changes.
+    {
+        let mut vals: Vec<u32> = (0..=130).collect();
+        vals.extend(1000..=1061);
+        vals.extend([255, 256, 2004, 2026, 9001, 65535]);
+        let mut heads: Vec<(String, String)> = vec![];
+        for f in 0x40u8..=0x7e {
+            let fc = f as char;
+            for im in (0x20u8..=0x2f).map(|b| b as char) {
+                if !(im == '!' && fc == 'p') {
+                    heads.push((String::new(), format!("{im}{fc}")));
+                }
+            }
+            for mk in ['<', '=', '>'] {
+                heads.push((mk.to_string(), fc.to_string()));
+            }
+            if fc != 'h' && fc != 'l' {
+                heads.push(("?".into(), fc.to_string()));
+            }
+        }
+        let (nh, nv) = (heads.len(), vals.len());
+        let st = "ab\r\ncd\x1b[?6h\x1b[2;3r\x1b[4h\x1b[1;31m\x1b(0\x1b[?25l\x1b[?7l\x1b7\x1b[2;2H";
+        parts.push(run_part(
+            env,
+            "enum-parameter-sweep",
+            nh * nv,
+            true,
+            "every unimplemented (intermediate | marker, final) pair x first parameter in 0..=130, 1000..=1061 and a few more, with and without a second parameter, from a state with margins, origin and insert mode, a pen, a charset, a hidden cursor and a saved context",
+            &|i| {
+                let (pf, tail) = &heads[i / nv];
+                let v = vals[i % nv];
+                let second = ["", ";0", ";1", ";2"][i % 4];
+                let mut c = Case::new(6, 4, None).feed(st);
+                c.tail = vec![format!("\x1b[{pf}{v}{second}{tail}")];
+                Some(c)
+            },
+            &j,
+        ));
+    }
     parts.push(random_part(env, "random-items", env.tier.scale(150_000, 30), &gen_case, &j));
     parts.push(random_part(env, "long-payloads", env.tier.scale(60_000, 30), &gen_long_payload, &j));
     PropRun {
